@@ -64,13 +64,21 @@ impl<T: Debug + Clone + Ord + 'static> BooleanFunction<T> for Expression<T> {
     }
 
     fn existential_quantification(&self, variables: BTreeSet<T>) -> Self {
-        self.restrict(&btreeset_to_valuation(variables.clone(), false))
-            | self.restrict(&btreeset_to_valuation(variables, true))
+        variables.into_iter().fold(self.clone(), |acc, variable| {
+            acc.restrict(&btreeset_to_valuation(
+                BTreeSet::from([variable.clone()]),
+                false,
+            )) | acc.restrict(&btreeset_to_valuation(BTreeSet::from([variable]), true))
+        })
     }
 
     fn universal_quantification(&self, variables: BTreeSet<T>) -> Self {
-        self.restrict(&btreeset_to_valuation(variables.clone(), false))
-            & self.restrict(&btreeset_to_valuation(variables, true))
+        variables.into_iter().fold(self.clone(), |acc, variable| {
+            acc.restrict(&btreeset_to_valuation(
+                BTreeSet::from([variable.clone()]),
+                false,
+            )) & acc.restrict(&btreeset_to_valuation(BTreeSet::from([variable]), true))
+        })
     }
 
     fn derivative(&self, variables: BTreeSet<T>) -> Self {
